@@ -61,6 +61,13 @@ type TypeSpec struct {
 	Clauses     []*Clause
 	Guarded     map[string]string // field -> mutex field
 	ClosesUnder map[string]string // channel field -> mutex field
+	Final       []FinalSpec       // fields written only while their object is being constructed
+}
+
+type FinalSpec struct {
+	Fields []string
+	Tags   []string
+	Line   int
 }
 
 type SpecFile struct {
@@ -774,6 +781,13 @@ func ParseSpecFile(path string, pkg string, requirePrefix bool) (*SpecFile, erro
 				for _, f := range splitNames(rest[i+1:]) {
 					curType.ClosesUnder[f] = mu
 				}
+				continue
+			case "final":
+				// final[tags] f1, f2 -- fields assigned only by the function that allocates the object
+				if curType == nil {
+					return nil, fail(l.no, "final outside a type block")
+				}
+				curType.Final = append(curType.Final, FinalSpec{Fields: splitNames(rest), Tags: cl.Tags, Line: l.no})
 				continue
 			case "known":
 				// known <finding id> attaches to previous clause
